@@ -80,9 +80,10 @@ Proof.
 Qed.
 
 (* ------------------------------------------------------------------------------------------ the world invariant *)
+(** No assumption on the allocator families of the two lists is part of the invariant: only splice / splice_at,
+    which hand the source's nodes to the destination, need both lists to use the same family ([mem_ok]). *)
 Record winv (w : world) : Prop := {
   wi_lok : lok (wal w);
-  wi_mem : l_mem (wa w) = l_mem (wb w);
   wi_rep : exists la lb, lrep (wa w) la /\ lrep (wb w) lb /\ Permutation (live (wal w)) (blocks (wa w) la ++ blocks (wb w) lb);
 }.
 Definition wabs (w : world) : list N * list N := (cl_abs (wa w), cl_abs (wb w)).
@@ -91,7 +92,7 @@ Definition pswap {A} (p : A * A) : A * A := (snd p, fst p).
 
 Lemma winv_swap w : winv w -> winv (wswap w).
 Proof.
-  intros [Hk Hm (la & lb & R1 & R2 & HP)]. constructor; cbn [wswap wa wb wal]; [assumption|congruence|].
+  intros [Hk (la & lb & R1 & R2 & HP)]. constructor; cbn [wswap wa wb wal]; [assumption|].
   exists lb, la. split; [assumption|]. split; [assumption|]. eapply Permutation_trans; [exact HP|apply Permutation_app_comm].
 Qed.
 
@@ -120,17 +121,25 @@ Qed.
 
 Definition psel {A} (p : A * A) (hd : hnd) : A := match hd with HA => fst p | HB => snd p end.
 
+(** The one side condition: the move operations need both lists to use the same allocator family. *)
+Definition mem_ok (w : world) (o : lop) : Prop :=
+  match o with OSplice | OSpliceAt _ => l_mem (wa w) = l_mem (wb w) | _ => True end.
+
+(** The invariant afterwards, and the allocator families of the two lists are what they were. *)
+Definition wnext (m1 m2 : tag) (w' : world) : Prop := winv w' /\ l_mem (wa w') = m1 /\ l_mem (wb w') = m2.
+
 Definition step_ok (w : world) (hd : hnd) (o : lop) : Prop :=
-  exists out w' fl, cl_step cmp pred w hd o = Ok (out, w') /\ winv w' /\
+  mem_ok w o ->
+  exists out w' fl, cl_step cmp pred w hd o = Ok (out, w') /\ wnext (l_mem (wa w)) (l_mem (wb w)) w' /\
     (out, wabs w') = spec_step cmp pred (wabs w) hd o fl /\ aframe (wal w) (wal w') /\
     (fl = true -> plan (wal w) <> [] \/ limit (wal w) < req_bytes (psel (wabs w) hd) o).
 
 Lemma winv_set s1 s2 s1' a' la' lb :
-  lok a' -> l_mem s1 = l_mem s2 -> same_hdr s1 s1' -> lrep s1' la' -> lrep s2 lb -> owns a' s1' la' (blocks s2 lb) ->
-  winv {| wa := s1'; wb := s2; wal := a' |} /\ wabs {| wa := s1'; wb := s2; wal := a' |} = (map snd la', map snd lb).
+  lok a' -> same_hdr s1 s1' -> lrep s1' la' -> lrep s2 lb -> owns a' s1' la' (blocks s2 lb) ->
+  wnext (l_mem s1) (l_mem s2) {| wa := s1'; wb := s2; wal := a' |} /\ wabs {| wa := s1'; wb := s2; wal := a' |} = (map snd la', map snd lb).
 Proof.
-  intros Hk Hm [_ Hh] R1 R2 Ho. split.
-  - constructor; cbn [wa wb wal]; [assumption|congruence|]. exists la', lb. auto.
+  intros Hk [_ Hh] R1 R2 Ho. split.
+  - split; [|split; [exact Hh|reflexivity]]. constructor; cbn [wa wb wal]; [assumption|]. exists la', lb. auto.
   - unfold wabs. cbn [wa wb]. rewrite (lrep_abs _ _ R1), (lrep_abs _ _ R2). reflexivity.
 Qed.
 
@@ -142,25 +151,25 @@ Qed.
 
 (** Outcome of an allocating single-element insertion, shared by add_first / add_last / add / add_at. *)
 Lemma step_insert s1 s2 a la lb (f : res (stat * clist * alloc_st)) (mk : N -> list (N * N)) :
-  lok a -> l_mem s1 = l_mem s2 -> lrep s2 lb ->
+  lok a -> lrep s2 lb ->
   match alloc (l_mem s1) NODE_BYTES a with
   | (Some id, a1) => exists s', f = Ok (CC_OK, s', a1) /\ lrep s' (mk id) /\ lown a1 s' (mk id) (blocks s2 lb) /\ same_hdr s1 s' /\ aframe a a1
   | (None, a1) => f = Ok (CC_ERR_ALLOC, s1, a1) /\ lown a1 s1 la (blocks s2 lb) /\ live a1 = live a /\ aframe a a1 /\
                   (plan a <> [] \/ limit a < NODE_BYTES)
   end ->
   lrep s1 la ->
-  exists st s1' a' (fl : bool), f = Ok (st, s1', a') /\ winv {| wa := s1'; wb := s2; wal := a' |} /\ aframe a a' /\
+  exists st s1' a' (fl : bool), f = Ok (st, s1', a') /\ wnext (l_mem s1) (l_mem s2) {| wa := s1'; wb := s2; wal := a' |} /\ aframe a a' /\
     (fl = true -> plan a <> [] \/ limit a < NODE_BYTES) /\
     ((fl = false /\ st = CC_OK /\ exists id, wabs {| wa := s1'; wb := s2; wal := a' |} = (map snd (mk id), map snd lb)) \/
      (fl = true /\ st = CC_ERR_ALLOC /\ wabs {| wa := s1'; wb := s2; wal := a' |} = (map snd la, map snd lb))).
 Proof.
-  intros Hk Hm R2 H R1. destruct (alloc (l_mem s1) NODE_BYTES a) as [[id|] a1].
+  intros Hk R2 H R1. destruct (alloc (l_mem s1) NODE_BYTES a) as [[id|] a1].
   - destruct H as (s' & E & R' & [Hk' Ho'] & Hh & Hf).
-    destruct (winv_set s1 s2 s' a1 (mk id) lb Hk' Hm Hh R' R2 Ho') as [Hw Ha].
+    destruct (winv_set s1 s2 s' a1 (mk id) lb Hk' Hh R' R2 Ho') as [Hw Ha].
     exists CC_OK, s', a1, false. split; [exact E|]. split; [exact Hw|]. split; [exact Hf|]. split; [discriminate|].
     left. eauto.
   - destruct H as (E & [Hk' Ho'] & Hl & Hf & Hw).
-    destruct (winv_set s1 s2 s1 a1 la lb Hk' Hm (same_hdr_refl _) R1 R2 Ho') as [Hw' Ha].
+    destruct (winv_set s1 s2 s1 a1 la lb Hk' (same_hdr_refl _) R1 R2 Ho') as [Hw' Ha].
     exists CC_ERR_ALLOC, s1, a1, true. split; [exact E|]. split; [exact Hw'|]. split; [exact Hf|]. split; [auto|].
     right. auto.
 Qed.
@@ -191,36 +200,37 @@ Ltac fin := repeat (split; [try reflexivity; try assumption|]); cbn [wal]; try r
 
 Theorem step_refines_HA w o : winv w -> step_ok w HA o.
 Proof.
-  intros [Hk Hm (la & lb & R1 & R2 & HP)]. destruct w as [s1 s2 a]. cbn [wa wb wal] in *.
-  unfold step_ok. cbn [wal psel].
+  intros [Hk (la & lb & R1 & R2 & HP)] Hmo. destruct w as [s1 s2 a]. cbn [wa wb wal] in *.
+  cbn [wal psel].
   assert (Hown : lown a s1 la (blocks s2 lb)) by (split; assumption).
   assert (Habs : wabs {| wa := s1; wb := s2; wal := a |} = (map snd la, map snd lb)).
   { unfold wabs. cbn [wa wb]. rewrite (lrep_abs _ _ R1), (lrep_abs _ _ R2). reflexivity. }
-  assert (Hw0 : winv {| wa := s1; wb := s2; wal := a |}) by (constructor; cbn [wa wb wal]; eauto).
+  assert (Hw0 : wnext (l_mem s1) (l_mem s2) {| wa := s1; wb := s2; wal := a |}).
+  { split; [constructor; cbn [wa wb wal]; eauto|split; reflexivity]. }
   rewrite Habs. unfold spec_step. cbn [fst snd cl_step wget wother wset wset2 wa wb wal].
   (* read-only operations answer from the current state *)
   assert (Hro : forall out,
             exists (out' : lout) (w' : world) (fl : bool),
-              Ok (out, {| wa := s1; wb := s2; wal := a |}) = Ok (out', w') /\ winv w' /\
+              Ok (out, {| wa := s1; wb := s2; wal := a |}) = Ok (out', w') /\ wnext (l_mem s1) (l_mem s2) w' /\
               (out', wabs w') = (out, (map snd la, map snd lb)) /\ aframe a (wal w') /\
               (fl = true -> plan a <> [] \/ limit a < NODE_BYTES)).
   { intros out. exists out, {| wa := s1; wb := s2; wal := a |}, false. rewrite Habs.
     split; [reflexivity|]. split; [exact Hw0|]. split; [reflexivity|]. split; [apply aframe_refl|discriminate]. }
   destruct o; cbn [spec_one req_bytes cl_step wget wother wset wset2 wa wb wal].
   - (* add_first *)
-    destruct (step_insert s1 s2 a la lb (cl_add_first s1 x a) (fun id => (id, x) :: la) Hk Hm R2 (add_first_spec s1 la a _ x R1 Hown) R1)
+    destruct (step_insert s1 s2 a la lb (cl_add_first s1 x a) (fun id => (id, x) :: la) Hk R2 (add_first_spec s1 la a _ x R1 Hown) R1)
       as (st & s1' & a' & fl & E & Hw & Hf & Hfl & Hc).
     rewrite E. cbn [bind]. exists (LOut st []), {| wa := s1'; wb := s2; wal := a' |}, fl. split; [reflexivity|]. split; [exact Hw|].
     split; [|split; [exact Hf|exact Hfl]].
     destruct Hc as [(-> & -> & id & ->)|(-> & -> & ->)]; reflexivity.
   - (* add_last *)
-    destruct (step_insert s1 s2 a la lb (cl_add_last s1 x a) (fun id => la ++ [(id, x)]) Hk Hm R2 (add_last_spec s1 la a _ x R1 Hown) R1)
+    destruct (step_insert s1 s2 a la lb (cl_add_last s1 x a) (fun id => la ++ [(id, x)]) Hk R2 (add_last_spec s1 la a _ x R1 Hown) R1)
       as (st & s1' & a' & fl & E & Hw & Hf & Hfl & Hc).
     rewrite E. cbn [bind]. exists (LOut st []), {| wa := s1'; wb := s2; wal := a' |}, fl. split; [reflexivity|]. split; [exact Hw|].
     split; [|split; [exact Hf|exact Hfl]].
     destruct Hc as [(-> & -> & id & ->)|(-> & -> & ->)]; [rewrite map_app|]; reflexivity.
   - (* add *)
-    destruct (step_insert s1 s2 a la lb (cl_add s1 x a) (fun id => la ++ [(id, x)]) Hk Hm R2 (add_last_spec s1 la a _ x R1 Hown) R1)
+    destruct (step_insert s1 s2 a la lb (cl_add s1 x a) (fun id => la ++ [(id, x)]) Hk R2 (add_last_spec s1 la a _ x R1 Hown) R1)
       as (st & s1' & a' & fl & E & Hw & Hf & Hfl & Hc).
     rewrite E. cbn [bind]. exists (LOut st []), {| wa := s1'; wb := s2; wal := a' |}, fl. split; [reflexivity|]. split; [exact Hw|].
     split; [|split; [exact Hf|exact Hfl]].
@@ -231,7 +241,7 @@ Proof.
       apply (Hro (LOut CC_ERR_OUT_OF_RANGE [])).
     + destruct (split_at la i ltac:(lia)) as (l1 & [b db] & l2 & -> & <-).
       destruct (step_insert s1 s2 a (l1 ++ (b, db) :: l2) lb (cl_add_at s1 x (lenN l1) a) (fun id => l1 ++ (id, x) :: (b, db) :: l2)
-                  Hk Hm R2 (add_at_spec s1 l1 b db l2 a _ x R1 Hown) R1) as (st & s1' & a' & fl & E & Hw & Hf & Hfl & Hc).
+                  Hk R2 (add_at_spec s1 l1 b db l2 a _ x R1 Hown) R1) as (st & s1' & a' & fl & E & Hw & Hf & Hfl & Hc).
       rewrite E. cbn [bind]. exists (LOut st []), {| wa := s1'; wb := s2; wal := a' |}, fl. split; [reflexivity|]. split; [exact Hw|].
       split; [|split; [exact Hf|exact Hfl]].
       destruct Hc as [(-> & -> & id & ->)|(-> & -> & ->)]; [|reflexivity].
@@ -247,7 +257,7 @@ Proof.
       rewrite (load_ok _ _ _ Hn0 Hy). cbn [bind n_data].
       destruct (unlinkn_spec s1 l1 y x l2 a _ R1 Hown) as (s1' & a' & E & R' & [Hk' Ho'] & Hh & Hf & _).
       rewrite E. cbn [bind vals1 is_ok].
-      destruct (winv_set s1 s2 s1' a' (l1 ++ l2) lb Hk' Hm Hh R' R2 Ho') as [Hw Ha].
+      destruct (winv_set s1 s2 s1' a' (l1 ++ l2) lb Hk' Hh R' R2 Ho') as [Hw Ha].
       exists (LOut CC_OK [x]), {| wa := s1'; wb := s2; wal := a' |}, false. rewrite Ha. fin.
     + rewrite Hfs. cbn [N.eqb bind vals1 is_ok]. apply (Hro (LOut CC_ERR_VALUE_NOT_FOUND [])).
   - (* remove_at *)
@@ -260,7 +270,7 @@ Proof.
       rewrite (load_ok _ _ _ Hy0 (dseg_mid _ _ _ _ _ _ _ (rep_seg _ _ R1))). cbn [bind n_data].
       destruct (unlinkn_spec s1 l1 y d l2 a _ R1 Hown) as (s1' & a' & E & R' & [Hk' Ho'] & Hh & Hf & _).
       rewrite E. cbn [bind vals1 is_ok].
-      destruct (winv_set s1 s2 s1' a' (l1 ++ l2) lb Hk' Hm Hh R' R2 Ho') as [Hw Ha].
+      destruct (winv_set s1 s2 s1' a' (l1 ++ l2) lb Hk' Hh R' R2 Ho') as [Hw Ha].
       exists (LOut CC_OK [d]), {| wa := s1'; wb := s2; wal := a' |}, false. rewrite Ha.
       rewrite !map_app. cbn [map snd]. rewrite <- (lenN_map snd l1), getN_app_mid. unfold remove_nth.
       rewrite firstnN_app, skipnN_app1. rewrite <- map_app. fin.
@@ -272,7 +282,7 @@ Proof.
       rewrite (rep_head _ _ R1). cbn [first_id].
       destruct (unlinkn_spec s1 [] y d t a _ R1 Hown) as (s1' & a' & E & R' & [Hk' Ho'] & Hh & Hf & _).
       rewrite E. cbn [bind vals1 is_ok app] in *.
-      destruct (winv_set s1 s2 s1' a' t lb Hk' Hm Hh R' R2 Ho') as [Hw Ha].
+      destruct (winv_set s1 s2 s1' a' t lb Hk' Hh R' R2 Ho') as [Hw Ha].
       exists (LOut CC_OK [d]), {| wa := s1'; wb := s2; wal := a' |}, false. rewrite Ha. cbn [map snd]. fin.
   - (* remove_last *)
     unfold cl_remove_last. destruct (list_eq_dec (fun p q : N * N => ltac:(decide equality; apply N.eq_dec)) la []) as [->|Hne].
@@ -283,7 +293,7 @@ Proof.
       rewrite (rep_tail _ _ R1), last_id_snoc.
       destruct (unlinkn_spec s1 t y d [] a _ R1 Hown) as (s1' & a' & E & R' & [Hk' Ho'] & Hh & Hf & _).
       rewrite E. cbn [bind vals1 is_ok]. rewrite app_nil_r in R', Ho'.
-      destruct (winv_set s1 s2 s1' a' t lb Hk' Hm Hh R' R2 Ho') as [Hw Ha].
+      destruct (winv_set s1 s2 s1' a' t lb Hk' Hh R' R2 Ho') as [Hw Ha].
       exists (LOut CC_OK [d]), {| wa := s1'; wb := s2; wal := a' |}, false. rewrite Ha.
       rewrite map_app, rev_app_distr. cbn [map snd rev app]. rewrite rev_involutive. fin.
   - (* remove_all *)
@@ -295,7 +305,7 @@ Proof.
         as (s1' & a' & E & R' & [Hk' Ho'] & Hh & Hf & _).
       rewrite E. cbn [bind].
       assert (R'' : lrep (upd s1' (l_size s1') 0 0 (l_heap s1')) []) by (constructor; cbn; try apply R'; reflexivity).
-      destruct (winv_set s1 s2 (upd s1' (l_size s1') 0 0 (l_heap s1')) a' [] lb Hk' Hm Hh R'' R2 Ho') as [Hw Ha].
+      destruct (winv_set s1 s2 (upd s1' (l_size s1') 0 0 (l_heap s1')) a' [] lb Hk' Hh R'' R2 Ho') as [Hw Ha].
       exists (LOut CC_OK []), {| wa := upd s1' (l_size s1') 0 0 (l_heap s1'); wb := s2; wal := a' |}, false. rewrite Ha.
       cbn [map]. fin.
   - (* remove_all_cb *)
@@ -307,7 +317,7 @@ Proof.
         as (s1' & a' & E & R' & [Hk' Ho'] & Hh & Hf & _).
       rewrite E. cbn [bind app].
       assert (R'' : lrep (upd s1' (l_size s1') 0 0 (l_heap s1')) []) by (constructor; cbn; try apply R'; reflexivity).
-      destruct (winv_set s1 s2 (upd s1' (l_size s1') 0 0 (l_heap s1')) a' [] lb Hk' Hm Hh R'' R2 Ho') as [Hw Ha].
+      destruct (winv_set s1 s2 (upd s1' (l_size s1') 0 0 (l_heap s1')) a' [] lb Hk' Hh R'' R2 Ho') as [Hw Ha].
       exists (LOut CC_OK (map snd (p :: t))), {| wa := upd s1' (l_size s1') 0 0 (l_heap s1'); wb := s2; wal := a' |}, false. rewrite Ha.
       cbn [map]. fin.
   - (* replace_at *)
@@ -318,7 +328,7 @@ Proof.
       destruct (replace_at_spec s1 l1 y d l2 x R1) as (s1' & E & R' & Hh). rewrite E. cbn [bind vals1 is_ok].
       assert (Ho' : owns a s1' (l1 ++ (y, x) :: l2) (blocks s2 lb)).
       { eapply owns_perm; [exact HP|exact Hh|]. rewrite !ids_app. reflexivity. }
-      destruct (winv_set s1 s2 s1' a _ lb Hk Hm Hh R' R2 Ho') as [Hw Ha].
+      destruct (winv_set s1 s2 s1' a _ lb Hk Hh R' R2 Ho') as [Hw Ha].
       exists (LOut CC_OK [d]), {| wa := s1'; wb := s2; wal := a |}, false. rewrite Ha.
       rewrite !map_app. cbn [map snd]. rewrite <- (lenN_map snd l1), getN_app_mid. unfold replace_nth.
       rewrite firstnN_app, skipnN_app1. fin.
@@ -370,12 +380,12 @@ Proof.
         destruct (release_split (l_mem s1) blk a1 [] _ (live a) Hl ltac:(intros []) Hk1) as (a2 & Er & Hl2 & Hk2 & Hf2 & _).
         rewrite Er. cbn [bind app] in *.
         assert (Ho2 : owns a2 s1 (p :: t) (blocks s2 lb)) by (unfold owns; rewrite Hl2; exact HP).
-        destruct (winv_set s1 s2 s1 a2 _ lb Hk2 Hm (same_hdr_refl _) R1 R2 Ho2) as [Hw Ha].
+        destruct (winv_set s1 s2 s1 a2 _ lb Hk2 (same_hdr_refl _) R1 R2 Ho2) as [Hw Ha].
         exists (LOut CC_OK (map snd (p :: t))), {| wa := s1; wb := s2; wal := a2 |}, false. rewrite Ha.
         split; [reflexivity|]. split; [exact Hw|]. split; [reflexivity|]. split; [eapply aframe_trans; eassumption|discriminate].
       * destruct (alloc_none _ _ _ _ Ea Hk) as (Hl & Hk1 & Hf1 & Hw1).
         assert (Ho2 : owns a1 s1 (p :: t) (blocks s2 lb)) by (unfold owns; rewrite Hl; exact HP).
-        destruct (winv_set s1 s2 s1 a1 _ lb Hk1 Hm (same_hdr_refl _) R1 R2 Ho2) as [Hw Ha].
+        destruct (winv_set s1 s2 s1 a1 _ lb Hk1 (same_hdr_refl _) R1 R2 Ho2) as [Hw Ha].
         exists (LOut CC_ERR_ALLOC []), {| wa := s1; wb := s2; wal := a1 |}, true. rewrite Ha.
         split; [reflexivity|]. split; [exact Hw|]. split; [reflexivity|]. split; [exact Hf1|].
         intros _. rewrite lenN_map, <- (rep_size _ _ R1). exact Hw1.
@@ -387,7 +397,7 @@ Proof.
     destruct (reverse_spec s1 la R1) as (s1' & E & R' & Hh). rewrite E. cbn [bind].
     assert (Ho' : owns a s1' (rev la) (blocks s2 lb)).
     { eapply owns_perm; [exact HP|exact Hh|]. unfold ids. rewrite map_rev. apply Permutation_sym, Permutation_rev. }
-    destruct (winv_set s1 s2 s1' a _ lb Hk Hm Hh R' R2 Ho') as [Hw Ha].
+    destruct (winv_set s1 s2 s1' a _ lb Hk Hh R' R2 Ho') as [Hw Ha].
     exists (LOut CC_OK []), {| wa := s1'; wb := s2; wal := a |}, false. rewrite Ha, map_rev. fin.
   - (* filter_mut *)
     unfold cl_filter_mut. destruct la as [|p t].
@@ -397,19 +407,19 @@ Proof.
       destruct (filter_mut_loop_spec pred (p :: t) (fuel_of s1) [] s1 a _ R1 Hown (fuel_of_gt _ _ R1))
         as (s1' & a' & E & R' & [Hk' Ho'] & Hh & Hf & _).
       rewrite E. cbn [bind app] in *.
-      destruct (winv_set s1 s2 s1' a' _ lb Hk' Hm Hh R' R2 Ho') as [Hw Ha].
+      destruct (winv_set s1 s2 s1' a' _ lb Hk' Hh R' R2 Ho') as [Hw Ha].
       exists (LOut CC_OK []), {| wa := s1'; wb := s2; wal := a' |}, false. rewrite Ha, filter_snd.
       cbn [map]. fin.
   - (* add_all *)
     destruct lb as [|q tb].
     + rewrite (add_all_empty_src _ _ _ R2). cbn [bind map]. apply (Hro (LOut CC_OK [])).
-    + destruct (add_all_spec s1 la s2 (q :: tb) a _ R1 R2 Hown Hm ltac:(discriminate)) as (st & s1' & a' & E & Hf & Hh & Hc).
+    + destruct (add_all_spec s1 la s2 (q :: tb) a _ R1 R2 Hown ltac:(discriminate)) as (st & s1' & a' & E & Hf & Hh & Hc).
       rewrite E. cbn [bind].
       destruct Hc as [(-> & cp & Hcp & R' & [Hk' Ho'])|(-> & -> & Hl & Hk' & Hw1)].
-      * rewrite app_nil_r in R', Ho'. destruct (winv_set s1 s2 s1' a' _ _ Hk' Hm Hh R' R2 Ho') as [Hw Ha].
+      * rewrite app_nil_r in R', Ho'. destruct (winv_set s1 s2 s1' a' _ _ Hk' Hh R' R2 Ho') as [Hw Ha].
         exists (LOut CC_OK []), {| wa := s1'; wb := s2; wal := a' |}, false. rewrite Ha, map_app, Hcp. cbn [map]. fin.
       * assert (Ho2 : owns a' s1 la (blocks s2 (q :: tb))) by (unfold owns; rewrite Hl; exact HP).
-        destruct (winv_set s1 s2 s1 a' _ _ Hk' Hm (same_hdr_refl _) R1 R2 Ho2) as [Hw Ha].
+        destruct (winv_set s1 s2 s1 a' _ _ Hk' (same_hdr_refl _) R1 R2 Ho2) as [Hw Ha].
         exists (LOut CC_ERR_ALLOC []), {| wa := s1; wb := s2; wal := a' |}, true. rewrite Ha. cbn [map]. fin.
   - (* add_all_at *)
     destruct lb as [|q tb].
@@ -421,14 +431,14 @@ Proof.
         { destruct (N.eq_dec i (lenN la)) as [->|Hne]; [exists la, []; rewrite app_nil_r; auto|].
           destruct (split_at la i ltac:(lia)) as (l1 & x & l2 & -> & <-). exists l1, (x :: l2). auto. }
         destruct Hsp as (A & B & -> & <-).
-        destruct (add_all_at_spec s1 A B s2 (q :: tb) a _ R1 R2 Hown Hm ltac:(discriminate)) as (st & s1' & a' & E & Hf & Hh & Hc).
+        destruct (add_all_at_spec s1 A B s2 (q :: tb) a _ R1 R2 Hown ltac:(discriminate)) as (st & s1' & a' & E & Hf & Hh & Hc).
         rewrite E. cbn [bind].
         destruct Hc as [(-> & cp & Hcp & R' & [Hk' Ho'])|(-> & -> & Hl & Hk' & Hw1)].
-        -- destruct (winv_set s1 s2 s1' a' _ _ Hk' Hm Hh R' R2 Ho') as [Hw Ha].
+        -- destruct (winv_set s1 s2 s1' a' _ _ Hk' Hh R' R2 Ho') as [Hw Ha].
            exists (LOut CC_OK []), {| wa := s1'; wb := s2; wal := a' |}, false. rewrite Ha.
            unfold insert_at. rewrite !map_app, Hcp. rewrite <- (lenN_map snd A), firstnN_app, skipnN_app. cbn [map]. fin.
         -- assert (Ho2 : owns a' s1 (A ++ B) (blocks s2 (q :: tb))) by (unfold owns; rewrite Hl; exact HP).
-           destruct (winv_set s1 s2 s1 a' _ _ Hk' Hm (same_hdr_refl _) R1 R2 Ho2) as [Hw Ha].
+           destruct (winv_set s1 s2 s1 a' _ _ Hk' (same_hdr_refl _) R1 R2 Ho2) as [Hw Ha].
            exists (LOut CC_ERR_ALLOC []), {| wa := s1; wb := s2; wal := a' |}, true. rewrite Ha. cbn [map]. fin.
   - (* splice *)
     unfold cl_splice. destruct lb as [|q tb].
@@ -438,8 +448,8 @@ Proof.
       { rewrite app_nil_r. eapply blocks_disjoint; [exact Hk|]. rewrite app_nil_r in HP. exact HP. }
       rewrite E. cbn [bind]. rewrite app_nil_r in R', HP.
       assert (Ho' : owns a s1' (la ++ q :: tb) (blocks (emptied s2) [])).
-      { eapply owns_splice; [exact Hm|exact Hh| |exact HP]. rewrite ids_app. reflexivity. }
-      destruct (winv_set s1 (emptied s2) s1' a _ [] Hk Hm Hh R' (lrep_emptied _ _ R2) Ho') as [Hw Ha].
+      { eapply owns_splice; [exact Hmo|exact Hh| |exact HP]. rewrite ids_app. reflexivity. }
+      destruct (winv_set s1 (emptied s2) s1' a _ [] Hk Hh R' (lrep_emptied _ _ R2) Ho') as [Hw Ha].
       exists (LOut CC_OK []), {| wa := s1'; wb := emptied s2; wal := a |}, false. rewrite Ha, map_app.
       cbn [map]. fin.
   - (* splice_at *)
@@ -456,9 +466,9 @@ Proof.
         { eapply blocks_disjoint; [exact Hk|exact HP]. }
         rewrite E. cbn [bind].
         assert (Ho' : owns a s1' (A ++ (q :: tb) ++ B) (blocks (emptied s2) [])).
-        { eapply owns_splice; [exact Hm|exact Hh| |exact HP]. rewrite !ids_app. rewrite <- app_assoc.
+        { eapply owns_splice; [exact Hmo|exact Hh| |exact HP]. rewrite !ids_app. rewrite <- app_assoc.
           apply Permutation_app_head, Permutation_app_comm. }
-        destruct (winv_set s1 (emptied s2) s1' a _ [] Hk Hm Hh R' (lrep_emptied _ _ R2) Ho') as [Hw Ha].
+        destruct (winv_set s1 (emptied s2) s1' a _ [] Hk Hh R' (lrep_emptied _ _ R2) Ho') as [Hw Ha].
         exists (LOut CC_OK []), {| wa := s1'; wb := emptied s2; wal := a |}, false. rewrite Ha.
         unfold insert_at. rewrite !map_app. rewrite <- (lenN_map snd A), firstnN_app, skipnN_app.
         cbn [map]. fin.
